@@ -66,6 +66,14 @@ static bool g_quiescent;               /* true: no other thread (bounded sequent
 /* ghosts that are pointers / indices stay well formed across loop havoc */
 #define GHOSTS_OK (g_bl_idx >= -1 && g_bl_idx <= 3 && INPOOL0(g_inward_seen))
 
+/* guarantee checks in the stubs: report the violation, then stop exploring that path (assert-then-assume: nothing is
+ * assumed that has not just been checked; keeps a violated run from cascading into unrelated failures / timeouts) */
+#ifdef VX_CBMC
+#define G_ASSERT(c, msg) do { VX_ASSERT(c, msg); __CPROVER_assume(c); } while (0)
+#else
+#define G_ASSERT(c, msg) VX_ASSERT(c, msg)
+#endif
+
 /* ---- environment ---- */
 static struct node *pick(void)
 {
@@ -168,15 +176,15 @@ static bool anchor_cas(struct deque *d, struct pair *expected, struct pair desir
 #if defined(U_STABILIZE) || defined(U_STABILIZE_LEFT) || defined(U_STABILIZE_RIGHT)
       VX_REACH("helping_step");
 #endif
-      VX_ASSERT(BACKLINK_OK(o), "the anchor is stabilized only after the missing back link (l->right->left == l resp. r->left->right == r) is in place");
-      VX_ASSERT(S_OK(g_q.anchor_), "a stabilizing step keeps the representation invariant at both ends");
+      G_ASSERT(BACKLINK_OK(o), "the anchor is stabilized only after the missing back link (l->right->left == l resp. r->left->right == r) is in place");
+      G_ASSERT(S_OK(g_q.anchor_), "a stabilizing step keeps the representation invariant at both ends");
     }
     else
     {
 #if defined(U_POP_LEFT) || defined(U_POP_RIGHT) || defined(U_PUSH_LEFT) || defined(U_PUSH_RIGHT)
       VX_REACH("own_step");
 #endif
-      VX_ASSERT(!lin, "at most one push/pop step per call");
+      G_ASSERT(!lin, "at most one push/pop step per call");
       lin = true; lin_old = o; lin_new = desired;
       g_lin_lr = LNK_R(o.left);
       g_lin_rl = LNK_L(o.right);
@@ -185,11 +193,11 @@ static bool anchor_cas(struct deque *d, struct pair *expected, struct pair desir
       g_lin_owndata = g_own != NULL ? DATA_OF(g_own) : 0;
       g_lin_ldata = DATA_OF(o.left);
       g_lin_rdata = DATA_OF(o.right);
-      VX_ASSERT(o.ltag == stable, "a pop or push step is taken only from a STABLE anchor: an anchor in lpush/rpush state is only ever stabilized, (l,r,xpush,t) -> (l,r,stable,t+1)");
-      VX_ASSERT(OWN_OK(o, desired), OWN_TEXT);
-      VX_ASSERT(A_OK(g_q.anchor_), "the step keeps the invariant of the anchor word (both ends NULL or both non-NULL; one element => stable)");
+      G_ASSERT(o.ltag == stable, "a pop or push step is taken only from a STABLE anchor: an anchor in lpush/rpush state is only ever stabilized, (l,r,xpush,t) -> (l,r,stable,t+1)");
+      G_ASSERT(OWN_OK(o, desired), OWN_TEXT);
+      G_ASSERT(A_OK(g_q.anchor_), "the step keeps the invariant of the anchor word (both ends NULL or both non-NULL; one element => stable)");
 #if defined(U_PUSH_LEFT) || defined(U_PUSH_RIGHT)
-      VX_ASSERT(S_OK(g_q.anchor_), "a push step keeps the representation invariant at both ends (only the one back link is missing)");
+      G_ASSERT(S_OK(g_q.anchor_), "a push step keeps the representation invariant at both ends (only the one back link is missing)");
 #endif
 #if defined(U_PUSH_LEFT) || defined(U_PUSH_RIGHT) || defined(U_SEQ)
       g_own = NULL;   /* published */
@@ -219,7 +227,7 @@ static struct tptr node_load(struct deque *d, struct tptr *f)
 /* std::atomic<tagged_ptr>::store on a node link: only ever on the caller's own unpublished node */
 static void node_store(struct deque *d, struct tptr *f, struct tptr v)
 {
-  VX_ASSERT(g_own != NULL && (f == &g_own->left || f == &g_own->right), "plain store only to a link of the caller's own, not yet published node");
+  G_ASSERT(g_own != NULL && (f == &g_own->left || f == &g_own->right), "plain store only to a link of the caller's own, not yet published node");
   *f = v;
   if (f == &g_own->left) g_own_ll = v.ptr; else g_own_lr = v.ptr;
 }
@@ -229,11 +237,11 @@ static bool node_cas(struct deque *d, struct tptr *f, struct tptr *expected, str
   interfere(d);
   /* guarantee of the node-level step (Michael, Fig. 6): it is attempted only for the missing back link of the unstable
    * anchor this call observed, after re-validating that anchor, and installs (end node, tag+1) */
-  VX_ASSERT(g_obs.ltag == lpush || g_obs.ltag == rpush, "a node link is CASed only while stabilizing an unstable anchor");
-  VX_ASSERT(g_validated, "the anchor is re-validated between reading the link to be replaced and the node-level CAS");
-  VX_ASSERT(g_inward_seen != NULL && f == (g_obs.ltag == lpush ? &g_inward_seen->left : &g_inward_seen->right),
+  G_ASSERT(g_obs.ltag == lpush || g_obs.ltag == rpush, "a node link is CASed only while stabilizing an unstable anchor");
+  G_ASSERT(g_validated, "the anchor is re-validated between reading the link to be replaced and the node-level CAS");
+  G_ASSERT(g_inward_seen != NULL && f == (g_obs.ltag == lpush ? &g_inward_seen->left : &g_inward_seen->right),
             "the node-level CAS targets the back link of the inward neighbour of the pushed end (l->right->left resp. r->left->right)");
-  VX_ASSERT(desired.ptr == (g_obs.ltag == lpush ? g_obs.left : g_obs.right) && desired.tag == (tag_t) ((expected->tag + 1) & 0xffff),
+  G_ASSERT(desired.ptr == (g_obs.ltag == lpush ? g_obs.left : g_obs.right) && desired.tag == (tag_t) ((expected->tag + 1) & 0xffff),
             "the node-level CAS installs the pushed end node with the link's ABA tag incremented");
   if (TPEQ(*f, *expected))
   {
@@ -250,7 +258,7 @@ static struct node *alloc_node(struct deque *d, struct node *lptr, struct node *
 {
   struct node *n = pick();
   VX_ASSUME(n != NULL && NOREF(g_q.anchor_, n));
-  VX_ASSERT(g_own == NULL, "one allocation per push");
+  G_ASSERT(g_own == NULL, "one allocation per push");
   n->left = mk_tptr(lptr, ltag);
   n->right = mk_tptr(rptr, rtag);
   n->data = v;
@@ -265,10 +273,10 @@ static struct node *g_free[NPOOL];
 static int g_nfree;
 static struct node *alloc_node(struct deque *d, struct node *lptr, struct node *rptr, T v, int ltag, int rtag)
 {
-  VX_ASSERT(g_nfree > 0 && g_nfree <= NPOOL, "sequential stand-in: at most NPOOL live nodes");
+  G_ASSERT(g_nfree > 0 && g_nfree <= NPOOL, "sequential stand-in: at most NPOOL live nodes");
   struct node *n = g_free[g_nfree - 1];
   g_nfree--;
-  VX_ASSERT(g_own == NULL, "one allocation per push");
+  G_ASSERT(g_own == NULL, "one allocation per push");
   n->left = mk_tptr(lptr, ltag);
   n->right = mk_tptr(rptr, rtag);
   n->data = v;
@@ -281,13 +289,13 @@ static void node_destroy(struct node *n) { (void) n; }
 /* pool_.deallocate(n): the node goes back to the freelist and may be handed to another thread at once */
 static void pool_deallocate(struct deque *d, struct node *n)
 {
-  VX_ASSERT(lin, "a node is retired only after the successful CAS that unlinked it");
-  VX_ASSERT(g_retired == 0, "a node is retired at most once");
+  G_ASSERT(lin, "a node is retired only after the successful CAS that unlinked it");
+  G_ASSERT(g_retired == 0, "a node is retired at most once");
   if (g_retired < 2) g_retired++;
   g_retired_node = n;
   n->data = nondet_int();   /* reuse: whatever is read from the node from now on is not the popped payload */
 #ifdef U_SEQ
-  VX_ASSERT(g_nfree >= 0 && g_nfree < NPOOL, "sequential stand-in: freelist overflow (double free)");
+  G_ASSERT(g_nfree >= 0 && g_nfree < NPOOL, "sequential stand-in: freelist overflow (double free)");
   g_free[g_nfree] = n;
   g_nfree++;
 #endif
@@ -300,10 +308,12 @@ void dealloc_node(struct deque *self, struct node *n)
 /* `anchor_pair& lrs` of stabilize*, lowered: the reference is a pointer, the name stays */
 #define lrs (*lrs_ref)
 #define STAB_ASSIGNS g_q.anchor_, *lrs_ref, POOL_OBJECTS, g_nsteps, g_step_old, g_step_new, g_last_read, g_obs, g_inward_seen, g_bl_idx, g_bl_left, g_bl_seen, g_validated
-/* precondition shared by the three: lrs is a word this thread read from (or installed in) the anchor and still holds as
- * its last observation; a node the caller has allocated but not published is private */
+/* precondition shared by the three: lrs is a word this thread has just read from (or installed in) the anchor and holds
+ * as its last observation (nothing read from the nodes yet); a node the caller has allocated but not published is
+ * private.  lin, g_nsteps and the caller's node are arbitrary: pop/push call stabilize before, push_* after their step */
 #define STAB_PRE (self == &g_q && S_OK(g_q.anchor_) && A_OK(*lrs_ref) && PEQ(*lrs_ref, g_obs) && \
-                  (g_own == NULL || (INPOOL(g_own) && NOREF(g_q.anchor_, g_own))) && OWN_INTACT && GHOSTS_OK)
+                  g_bl_idx == -1 && g_inward_seen == NULL && !g_validated && \
+                  (g_own == NULL || (INPOOL(g_own) && NOREF(g_q.anchor_, g_own))) && OWN_INTACT)
 /* nobody but the caller writes the caller's unpublished node: its fields equal the caller's shadow copies */
 #define OWN_INTACT (g_own == NULL || (LNK_L(g_own) == g_own_ll && LNK_R(g_own) == g_own_lr && DATA_OF(g_own) == g_own_data))
 
@@ -342,7 +352,6 @@ __CPROVER_assigns(STAB_ASSIGNS)
 //@LIFT stabilize
 #undef lrs
 
-#if defined(U_POP_LEFT) || defined(U_SEQ)
 //@FUNC
 bool pop_left(struct deque *self, T *r)
 __CPROVER_requires(self == &g_q && S_OK(g_q.anchor_) && !lin && g_retired == 0 && g_own == NULL)
@@ -355,9 +364,7 @@ __CPROVER_ensures(__CPROVER_return_value ==> (*r == g_lin_ldata && g_retired == 
 __CPROVER_ensures(!__CPROVER_return_value ==> (!lin && g_retired == 0 && g_last_read.left == NULL))
 __CPROVER_assigns(*r, g_q.anchor_, POOL_OBJECTS, lin, lin_old, lin_new, g_lin_lr, g_lin_rl, g_lin_nr, g_lin_nl, g_lin_ldata, g_lin_rdata, g_lin_owndata, g_nsteps, g_step_old, g_step_new, g_last_read, g_obs, g_inward_seen, g_bl_idx, g_bl_left, g_bl_seen, g_validated, g_own, g_retired, g_retired_node)
 //@LIFT pop_left
-#endif
 
-#if defined(U_POP_RIGHT) || defined(U_SEQ)
 //@FUNC
 bool pop_right(struct deque *self, T *r)
 __CPROVER_requires(self == &g_q && S_OK(g_q.anchor_) && !lin && g_retired == 0 && g_own == NULL)
@@ -366,9 +373,7 @@ __CPROVER_ensures(__CPROVER_return_value ==> (*r == g_lin_rdata && g_retired == 
 __CPROVER_ensures(!__CPROVER_return_value ==> (!lin && g_retired == 0 && g_last_read.right == NULL))
 __CPROVER_assigns(*r, g_q.anchor_, POOL_OBJECTS, lin, lin_old, lin_new, g_lin_lr, g_lin_rl, g_lin_nr, g_lin_nl, g_lin_ldata, g_lin_rdata, g_lin_owndata, g_nsteps, g_step_old, g_step_new, g_last_read, g_obs, g_inward_seen, g_bl_idx, g_bl_left, g_bl_seen, g_validated, g_own, g_retired, g_retired_node)
 //@LIFT pop_right
-#endif
 
-#if defined(U_PUSH_LEFT) || defined(U_SEQ)
 //@FUNC
 bool push_left(struct deque *self, T data)
 __CPROVER_requires(self == &g_q && S_OK(g_q.anchor_) && !lin && g_own == NULL && g_allocs == 0)
@@ -379,9 +384,7 @@ __CPROVER_ensures(__CPROVER_return_value ==> (T_PUSH_EMPTY(lin_old, lin_new, lin
 __CPROVER_ensures(!__CPROVER_return_value ==> !lin)
 __CPROVER_assigns(g_q.anchor_, POOL_OBJECTS, lin, lin_old, lin_new, g_lin_lr, g_lin_rl, g_lin_nr, g_lin_nl, g_lin_ldata, g_lin_rdata, g_lin_owndata, g_nsteps, g_step_old, g_step_new, g_last_read, g_obs, g_inward_seen, g_bl_idx, g_bl_left, g_bl_seen, g_validated, g_own, g_own_data, g_own_ll, g_own_lr, g_allocs)
 //@LIFT push_left
-#endif
 
-#if defined(U_PUSH_RIGHT) || defined(U_SEQ)
 //@FUNC
 bool push_right(struct deque *self, T data)
 __CPROVER_requires(self == &g_q && S_OK(g_q.anchor_) && !lin && g_own == NULL && g_allocs == 0)
@@ -390,16 +393,13 @@ __CPROVER_ensures(__CPROVER_return_value ==> (T_PUSH_EMPTY(lin_old, lin_new, lin
 __CPROVER_ensures(!__CPROVER_return_value ==> !lin)
 __CPROVER_assigns(g_q.anchor_, POOL_OBJECTS, lin, lin_old, lin_new, g_lin_lr, g_lin_rl, g_lin_nr, g_lin_nl, g_lin_ldata, g_lin_rdata, g_lin_owndata, g_nsteps, g_step_old, g_step_new, g_last_read, g_obs, g_inward_seen, g_bl_idx, g_bl_left, g_bl_seen, g_validated, g_own, g_own_data, g_own_ll, g_own_lr, g_allocs)
 //@LIFT push_right
-#endif
 
-#if defined(U_EMPTY) || defined(U_SEQ)
 //@FUNC
 bool empty(struct deque *self)
 __CPROVER_requires(self == &g_q && S_OK(g_q.anchor_))
 __CPROVER_ensures(__CPROVER_return_value == (g_last_read.left == NULL))
 __CPROVER_assigns(g_q.anchor_, POOL_OBJECTS, g_last_read, g_obs, g_validated, g_bl_idx, g_inward_seen)
 //@LIFT empty
-#endif
 
 static void init_ghosts(void)
 {
@@ -415,6 +415,7 @@ void harness(void)
   g_n0.data = nondet_int(); g_n1.data = nondet_int(); g_n2.data = nondet_int(); g_n3.data = nondet_int();
   havoc_shared(&g_q);
   g_obs = havoc_pair();
+  g_nsteps = nondet_uint();
 #if defined(U_POP_LEFT) || defined(U_POP_RIGHT)
   T out = 0;
 #ifdef U_POP_LEFT
@@ -439,6 +440,10 @@ void harness(void)
 #if defined(U_STABILIZE_LEFT) || defined(U_STABILIZE_RIGHT) || defined(U_STABILIZE)
   struct pair w = g_q.anchor_;
   g_obs = w;
+  /* the callers' context is arbitrary: before or after their own step, with or without an unpublished node */
+  lin = nondet_bool(); g_nsteps = nondet_uint();
+  g_own = pick(); g_own_ll = LNK_L(g_own); g_own_lr = LNK_R(g_own); g_own_data = DATA_OF(g_own);
+  bool had_own = g_own != NULL;
 #if defined(U_STABILIZE_LEFT)
   stabilize_left(&g_q, &w);
 #elif defined(U_STABILIZE_RIGHT)
@@ -446,7 +451,8 @@ void harness(void)
 #else
   stabilize(&g_q, &w);
 #endif
-  if (g_nsteps == 1) VX_REACH("stabilized"); else VX_REACH("no_anchor_step");
+  if (g_step_new.ltag == stable && PEQ(g_q.anchor_, g_step_new) && g_step_new.left != NULL) VX_REACH("stabilized"); else VX_REACH("no_anchor_step");
+  if (had_own) VX_REACH("caller_holds_unpublished_node");
 #endif
 #ifdef U_EMPTY
   if (empty(&g_q)) VX_REACH("is_empty"); else VX_REACH("not_empty");
@@ -456,15 +462,16 @@ void harness(void)
 
 #ifdef U_SEQ
 /* BOUNDED sequential stand-in (never counted as proof): one thread, no interference.  ALL 4^NOPS operation sequences of
- * length NOPS = 4 over push_left / push_right / pop_left / pop_right are enumerated (the operation codes are concrete, the
- * pushed values symbolic); every assertion is made after each operation, so all shorter sequences are covered as
- * prefixes.  Each sequence is followed by a drain that pops from nondeterministically chosen ends (a shorter sequence
- * followed by its drain is a prefix of one of these runs).  Reference model: an array window model[lo, hi). */
+ * length NOPS = 4 over push_left / push_right / pop_left / pop_right are enumerated -- the unit instance fixes the first
+ * two operations (SEQ_FIRST2), the harness loops over the other two; operation codes are concrete, pushed values symbolic.
+ * Every assertion is made after each operation, so all shorter sequences are covered as prefixes.  Each sequence is
+ * followed by a drain, once entirely from the left and once entirely from the right (mixed pop orders are already
+ * part of the enumerated sequences).  Reference model: an array window model[lo, hi). */
 #ifndef NOPS
 #define NOPS 4
 #endif
-static bool g_seen_four, g_seen_both_ends, g_seen_emptied;
-static void run_sequence(unsigned code)
+static bool g_seen_two, g_seen_both_ends, g_seen_emptied;
+static void run_sequence(unsigned code, bool drain_left)
 {
   init_ghosts();
   g_quiescent = true;
@@ -510,16 +517,16 @@ static void run_sequence(unsigned code)
     VX_ASSERT(g_q.anchor_.ltag == stable, "a completed operation leaves the quiescent deque stable");
     VX_ASSERT(g_nfree == NPOOL - (hi - lo), "exactly the nodes of the elements in the deque are allocated");
   }
-  if (hi - lo == NOPS) g_seen_four = true;
-  if (hi - lo == NOPS && used_left && used_right) g_seen_both_ends = true;
-  if (lo == hi && used_left) g_seen_emptied = true;
+  if (hi - lo >= 2) g_seen_two = true;
+  if (used_left && used_right) g_seen_both_ends = true;
+  if (lo == hi && (used_left || used_right)) g_seen_emptied = true;
   /* drain */
   for (int k = 0; k < NOPS; k++)
   {
     if (lo == hi) break;
     T out = 0;
     lin = false; g_retired = 0; g_own = NULL; g_allocs = 0;
-    if (nondet_bool())
+    if (drain_left)
     {
       VX_ASSERT(pop_left(&g_q, &out), "drain: pop_left on a non-empty quiescent deque succeeds");
       VX_ASSERT(out == model[lo], "drain: leftmost element");
@@ -542,12 +549,15 @@ static void run_sequence(unsigned code)
 }
 void harness(void)
 {
-  g_seen_four = false; g_seen_both_ends = false; g_seen_emptied = false;
-  for (unsigned code = 0; code < (1u << (2 * NOPS)); code++)
-    run_sequence(code);
-  if (g_seen_four) VX_REACH("four_elements");
+  g_seen_two = false; g_seen_both_ends = false; g_seen_emptied = false;
+  for (unsigned rest = 0; rest < (1u << (2 * (NOPS - 2))); rest++)
+  {
+    run_sequence(SEQ_FIRST2 | (rest << 4), true);
+    run_sequence(SEQ_FIRST2 | (rest << 4), false);
+  }
+  if (g_seen_two) VX_REACH("held_two_or_more_elements");
   if (g_seen_both_ends) VX_REACH("pushed_at_both_ends");
-  if (g_seen_emptied) VX_REACH("emptied_by_pops");
+  if (g_seen_emptied) VX_REACH("emptied_by_pops_before_drain");
   VX_REACH("all_sequences_drained");
 }
 #endif
